@@ -37,6 +37,7 @@ import (
 	"time"
 
 	"github.com/aergoio/aergo/v2/config"
+	"github.com/aergoio/aergo/v2/internal/enc/proto"
 	"github.com/aergoio/aergo/v2/internal/verifkit"
 	"github.com/aergoio/aergo/v2/state"
 	"github.com/aergoio/aergo/v2/types"
@@ -81,6 +82,9 @@ type aAct struct {
 	Full   bool     `json:"full,omitempty"`
 	Dirty  []string `json:"dirty,omitempty"`
 	Accs   []string `json:"accs,omitempty"`
+	Budget int      `json:"budget,omitempty"` // Get: body-size budget in size units (small tx = 1, large = 3)
+	// Get: the possible answers of the model, one per map order: account -> offered run (absent = nothing)
+	Alts []map[string][]aTx `json:"alts,omitempty"`
 }
 
 type aTrans struct {
@@ -322,10 +326,44 @@ func (e *mpEnv) setMockField(a string, s aSt) {
 	lock.Unlock()
 }
 
-func (e *mpEnv) mkTx(a aTx) types.Transaction {
-	tx := types.Tx{Body: &types.TxBody{Nonce: a.Nonce, Account: e.addr[a.Acc], Recipient: e.sink,
-		Amount: new(big.Int).SetUint64(a.Amt).Bytes()}}
+// Size classes (Mempool.tla TxSize): the first variant of a transaction (amt 1) is small = 1 unit, the second
+// (amt 2) carries a payload that makes its serialised size exactly 3 units; the unit is the serialised size of a
+// small transaction (all of them are equally long: 33-byte accounts, nonces < 128, one-byte amounts).
+var (
+	sizeOnce     sync.Once
+	sizeUnit     int
+	largePayload []byte
+)
+
+func (e *mpEnv) rawTx(a aTx, payload []byte) *types.Tx {
+	tx := &types.Tx{Body: &types.TxBody{Nonce: a.Nonce, Account: e.addr[a.Acc], Recipient: e.sink,
+		Amount: new(big.Int).SetUint64(a.Amt).Bytes(), Payload: payload}}
 	tx.Hash = tx.CalculateTxHash()
+	return tx
+}
+
+func (e *mpEnv) calibrateSizes() {
+	sizeOnce.Do(func() {
+		probe := aTx{Acc: e.accs[0], Nonce: 1, Amt: 1}
+		u := proto.Size(e.rawTx(probe, nil))
+		probe.Amt = 2
+		for n := 1; n < 4*u; n++ {
+			if proto.Size(e.rawTx(probe, make([]byte, n))) == 3*u {
+				sizeUnit, largePayload = u, make([]byte, n)
+				return
+			}
+		}
+		panic(fmt.Sprintf("c13 harness: no payload length gives a transaction of 3 x %d bytes", u))
+	})
+}
+
+func (e *mpEnv) mkTx(a aTx) types.Transaction {
+	e.calibrateSizes()
+	var payload []byte
+	if a.Amt == 2 {
+		payload = largePayload
+	}
+	tx := *e.rawTx(a, payload)
 	id := types.ToTxID(tx.Hash)
 	e.mu.Lock()
 	e.txOf[id] = a
@@ -479,6 +517,26 @@ func (e *mpEnv) apply(a aAct) (string, string, error) {
 	case "Evict":
 		e.evict(a.Accs)
 		return "", "", nil
+	case "Get":
+		// the producer's fetch with a body-size budget; detail = what it offers, per account in the order returned
+		e.calibrateSizes()
+		txs, err := e.mp.get(uint32(a.Budget * sizeUnit))
+		if err != nil {
+			return "", "", fmt.Errorf("get: %v", err)
+		}
+		got := map[string][]aTx{}
+		for _, tx := range txs {
+			at, ok := e.absTx(tx)
+			if !ok {
+				return "", "", fmt.Errorf("get returned an unknown tx")
+			}
+			if n := proto.Size(tx.GetTx()); n != sizeUnit*map[uint64]int{1: 1, 2: 3}[at.Amt] {
+				return "", "", fmt.Errorf("harness: tx %v has %d bytes, unit %d", at, n, sizeUnit)
+			}
+			got[at.Acc] = append(got[at.Acc], at)
+		}
+		b, _ := json.Marshal(got)
+		return "", string(b), nil
 	case "Unconfirmed":
 		out := e.mp.getUnconfirmed([]types.Address{types.Address(e.addr[a.Acc])}, false)
 		if len(out) != 1 || out[0] == nil {
@@ -801,6 +859,31 @@ func (e *mpEnv) step(res *verifkit.Result, g *aGraph, ti int, history []aAct, rn
 		res.Violate(sigOf("state-mismatch", f, tr.A, e.backend), replay(p), "after %s (%s back end, graph %s): %s", actString(tr.A), e.backend, g.Name, txt)
 		return false
 	}
+	if tr.A.Name == "Get" {
+		got := map[string][]aTx{}
+		json.Unmarshal([]byte(detail), &got)
+		// property-shaped: per account an ascending gap-free run base+1, base+2, .. (nothing after a tx that did not fit)
+		if acc, txt := fetchGap(got, &p); acc != "" {
+			res.Violate(sigOf("report", "get-gap", tr.A, e.backend), replay(got), "get with a budget of %d units (small tx = 1, large = 3) in a pool %+v: %s", tr.A.Budget, p.Pool, txt)
+			return false
+		}
+		// exact: one of the model's answers (one per order in which the lists can be visited)
+		okAlt := false
+		for _, alt := range tr.A.Alts {
+			same := true
+			for acc, run := range alt {
+				same = same && txsEq(got[acc], run)
+			}
+			for acc, run := range got {
+				same = same && (len(run) == 0 || len(alt[acc]) > 0)
+			}
+			okAlt = okAlt || same
+		}
+		if !okAlt {
+			res.Violate(sigOf("report", "get-budget", tr.A, e.backend), replay(got), "get with a budget of %d units offers %v, the model allows %v (pool %+v)", tr.A.Budget, got, tr.A.Alts, p.Pool)
+			return false
+		}
+	}
 	if tr.A.Name == "Unconfirmed" {
 		var u unconfOut
 		json.Unmarshal([]byte(detail), &u)
@@ -818,6 +901,25 @@ func (e *mpEnv) step(res *verifkit.Result, g *aGraph, ti int, history []aAct, rn
 		}
 	}
 	return true
+}
+
+// fetchGap: the predicate of the property on one answer of get: for every account the offered transactions are
+// base+1, base+2, .. in this order (p: the projection of the pool at that moment; nil: only "ascending without a hole").
+func fetchGap(got map[string][]aTx, p *projection) (string, string) {
+	for acc, run := range got {
+		for i, tx := range run {
+			if i > 0 && tx.Nonce != run[i-1].Nonce+1 {
+				return acc, fmt.Sprintf("get offers nonces with a hole or out of order for %s: %v", acc, run)
+			}
+			if p != nil {
+				l, ok := p.Pool[acc]
+				if !ok || tx.Nonce != l.Base.Nonce+uint64(i)+1 {
+					return acc, fmt.Sprintf("get offers %v for %s, which is not the run from state nonce %d + 1", run, acc, l.Base.Nonce)
+				}
+			}
+		}
+	}
+	return "", ""
 }
 
 func histString(h []aAct) string {
@@ -841,6 +943,8 @@ func actString(a aAct) string {
 		return fmt.Sprintf("Block(full=%v,named=%v)", a.Full, a.Dirty)
 	case "Evict":
 		return fmt.Sprintf("Evict(%v)", a.Accs)
+	case "Get":
+		return fmt.Sprintf("Get(budget=%d)", a.Budget)
 	}
 	return fmt.Sprintf("%s(%s)", a.Name, a.Acc)
 }
@@ -1227,6 +1331,11 @@ func concurrentRun(res *verifkit.Result, e *mpEnv, cp concParams, run int) []map
 		}
 		sort.Slice(all, func(i, j int) bool { return all[i].Seq < all[j].Seq })
 		for _, ev := range all {
+			if g, ok := ev.M["gap"]; ok {
+				delete(ev.M, "gap")
+				res.Violate(map[string]interface{}{"kind": "report", "field": "get-gap", "action": "concurrent", "backend": e.backend},
+					map[string]interface{}{"run": run, "round": round, "event": ev.M}, "concurrent run %d round %d (%s): %v", run, round, e.backend, g)
+			}
 			evs = append(evs, ev.M)
 		}
 		q, p := e.quiesceEvent()
@@ -1309,6 +1418,9 @@ func (e *mpEnv) concOp(role string, op map[string]interface{}, l *cLog) {
 		}
 		ret["res"] = r
 		ret["unknown"] = bad
+		if acc, txt := fetchGap(by, nil); acc != "" {
+			ret["gap"] = txt // reported by concurrentRun at the end of the round
+		}
 		l.add(ret)
 	case "unconf":
 		a := op["acc"].(string)
